@@ -7,12 +7,15 @@
 (* of the network map, fast-packet buffers (N2KFastPacket!Recv).           *)
 (*                                                                         *)
 (* Abstract traffic: PGN kinds "A", "B" (single frame), "P1", "P2" (two     *)
-(* definitions of one proprietary single-frame PGN "P"), "F" (fast packet), *)
-(* "CLAIM", and PGNs not in the database; content is a token.              *)
+(* definitions of one proprietary single-frame PGN "P"), "Q1" (a definition *)
+(* of a proprietary PGN "Q" that has no fallback definition), "F" (fast     *)
+(* packet), "CLAIM", and PGNs not in the database; content is a token.      *)
 (*   input = [k |-> "single", pgn, src, tok]                               *)
 (*         | [k |-> "frame", src, seq, fc, len, chunk]    (PGN "F")        *)
 (*         | [k |-> "claim", src, name]                                    *)
 (*         | [k |-> "unknown", src] | [k |-> "bad"]  (raises, no effect)   *)
+(*         | [k |-> "nomatch", src]  (a frame of PGN "Q" whose payload     *)
+(*            matches none of its definitions: ignored, no effect)         *)
 (* configuration = [mode ("none"|"exclude"|"include"), nums, ids (sets of  *)
 (*   PGN kinds listed by number / by id; ids compare case-insensitively),  *)
 (*   mfrMode, mfrs (manufacturer list), netmap]                            *)
@@ -23,7 +26,7 @@ NoMsg == [some |-> FALSE, pgn |-> "", src |-> 0, tok |-> <<>>, ident |-> 0]
 Msg(p, s, t, i) == [some |-> TRUE, pgn |-> p, src |-> s, tok |-> t, ident |-> i]
 
 \* several definitions (ids) may share one PGN number: kinds "P1" and "P2" are two definitions of PGN "P"
-NumOf(p) == IF p \in {"P1", "P2"} THEN "P" ELSE p
+NumOf(p) == IF p \in {"P1", "P2"} THEN "P" ELSE IF p = "Q1" THEN "Q" ELSE p
 Listed(cfg, p) == NumOf(p) \in cfg.nums \/ p \in cfg.ids
 \* the property's notion: not excluded, and listed when an include list is given
 Permitted(cfg, p) ==
@@ -58,6 +61,7 @@ LateDrop(cfg, p) == ~Permitted(cfg, p)
 Step(cfg, st, in, windowOpen) ==
   CASE in.k = "bad" -> [st |-> st, out |-> NoMsg, err |-> TRUE]
     [] in.k = "unknown" -> [st |-> st, out |-> NoMsg, err |-> FALSE]
+    [] in.k = "nomatch" -> [st |-> st, out |-> NoMsg, err |-> FALSE]
     [] in.k = "claim" ->
          LET st2 == [st EXCEPT !.ident = (in.src :> in.name) @@ st.ident] IN
            [st |-> st2, err |-> FALSE,
